@@ -636,13 +636,13 @@ func main() {
 		RacePkgs:          []string{"blockchain", "consensus/certificate", "event", "db/diffdb", "consensus/sync", "consensus", "db"},
 		ChildTimeoutQuick: 15 * time.Minute, ChildTimeoutThorough: 90 * time.Minute,
 	}, func(c *mon.Ctx) {
-		reps := c.N(10, 300)
+		reps := c.N(40, 600)
 		c.Cases("chain", reps, func(k *mon.Case) {
 			k.Watch("chain-stress", 180*time.Second, func() { chainStress(k, 4+k.R.Intn(9), 60+k.R.Intn(60)) })
 		})
 		c.Cases("pool", reps, func(k *mon.Case) { k.Watch("pool-stress", 60*time.Second, func() { poolStress(k) }) })
 		c.Cases("emitter", reps, func(k *mon.Case) { k.Watch("emitter-stress", 60*time.Second, func() { emitterStress(k) }) })
 		c.Cases("staged", reps, func(k *mon.Case) { k.Watch("staged-stress", 60*time.Second, func() { stagedStoreStress(k) }) })
-		c.Cases("handlers", c.N(8, 100), func(k *mon.Case) { k.Watch("handler-stress", 180*time.Second, func() { handlerStress(k) }) })
+		c.Cases("handlers", c.N(24, 300), func(k *mon.Case) { k.Watch("handler-stress", 180*time.Second, func() { handlerStress(k) }) })
 	})
 }
